@@ -8,6 +8,8 @@ import RV.Driver.C20
 import RV.Driver.C07
 import RV.Driver.C15
 import RV.Driver.C17
+import RV.Driver.C05
+import RV.Driver.C08
 open RV.Driver
 
 def dispatch (prop op : String) (args : List String) (impl : String) : Verdict :=
@@ -30,6 +32,8 @@ def dispatch (prop op : String) (args : List String) (impl : String) : Verdict :
   | "C16" => c16 op args impl
   | "C17" => c17 op args impl
   | "C18" => c18 op args impl
+  | "C05" => c05 op args impl
+  | "C08" => c08 op args impl
   | _ => bad s!"prop:{prop}"
 
 /-- a line is `id \t prop \t op \t arg… \t => \t impl` -/
